@@ -12,6 +12,9 @@ pub enum Mode {
     Early3,
     Early30,
     Late3,
+    /// from now on the ECU's timestamps are 30 s / 3 s larger (boot reference moves earlier for good)
+    ShiftEarly30,
+    ShiftEarly3,
     Overlap,
     Suspend,
     Ts0,
@@ -40,6 +43,8 @@ impl Sym {
             "Early3" => Mode::Early3,
             "Early30" => Mode::Early30,
             "Late3" => Mode::Late3,
+            "ShiftEarly30" => Mode::ShiftEarly30,
+            "ShiftEarly3" => Mode::ShiftEarly3,
             "Overlap" => Mode::Overlap,
             "Suspend" => Mode::Suspend,
             "Ts0" => Mode::Ts0,
@@ -114,6 +119,24 @@ pub fn alphabet(n: usize) -> Vec<Sym> {
     v
 }
 
+/// small alphabet around suspend/resume detection and start-estimate drift (full-depth family "resume_chains")
+pub fn resume_alphabet() -> Vec<Sym> {
+    use Mode::*;
+    let s = |ecu: u8, adv_ms: i64, mode: Mode| Sym { ecu, adv_ms, mode };
+    vec![
+        s(0, 2000, Cont),
+        s(0, 12000, Suspend),
+        s(0, 65000, Suspend),
+        s(0, 2000, ShiftEarly30),
+        s(0, 2000, ShiftEarly3),
+        s(0, 2000, Early3),
+        s(0, 2000, Late3),
+        s(0, 2000, New),
+        s(1, 2000, Cont),
+        s(1, 65000, New),
+    ]
+}
+
 #[derive(Clone, Copy)]
 struct EcuGen {
     known: bool,
@@ -153,6 +176,14 @@ pub fn gen_stream(syms: &[Sym], uptime0_ms: u64) -> Vec<DltMessage> {
             Mode::Early3 => now.saturating_sub(e.boot) + 3 * S,
             Mode::Early30 => now.saturating_sub(e.boot) + 30 * S,
             Mode::Late3 => now.saturating_sub(e.boot).saturating_sub(3 * S),
+            Mode::ShiftEarly30 => {
+                e.boot = e.boot.saturating_sub(30 * S);
+                now.saturating_sub(e.boot)
+            }
+            Mode::ShiftEarly3 => {
+                e.boot = e.boot.saturating_sub(3 * S);
+                now.saturating_sub(e.boot)
+            }
             Mode::Overlap => {
                 let end = e.lc_start_est + e.max_ts;
                 let nb = end.saturating_sub(S / 2);
